@@ -86,8 +86,12 @@ class Kinds:
     this is (reads of `self.f` have the declared kinds -- the invariant the store obligations maintain); `call_kinds(name, call)`
     -> kinds | None for calls of module-level functions (result kinds of a helper)."""
 
-    def __init__(self, fn, self_fields=None, call_kinds=None, consts=None, self_name=None, call_parts=None, param_kinds=None):
+    def __init__(self, fn, self_fields=None, call_kinds=None, consts=None, self_name=None, call_parts=None, param_kinds=None,
+                 owner=None, method_call=None, cls_name=None):
         self.fn, self.fields, self.call_kinds, self.call_parts = fn, self_fields or {}, call_kinds, call_parts
+        # owner: name of the class whose method this is; cls_name: the first parameter of a classmethod;
+        # method_call(owner, receiver, method, call, caller, what) -> kinds / tuple parts | None for `self.m(..)`, `cls.m(..)`, `Class.m(..)`
+        self.owner, self.method_call, self.cls_name = owner, method_call, cls_name
         self.consts = dict(consts or {})                 # parameter name -> ast.Constant (call-site literal)
         a = fn.args
         params = a.posonlyargs + a.args + a.kwonlyargs
@@ -329,6 +333,10 @@ class Kinds:
             return v if v is not False else None
         if isinstance(e, ast.Call) and isinstance(e.func, ast.Name) and self.call_parts is not None and e.func.id not in self.env:
             return self.call_parts(e.func.id, e, self)
+        if isinstance(e, ast.Call) and isinstance(e.func, ast.Attribute):
+            r = self._method_result(e, "parts")
+            if r is not None:
+                return r
         if isinstance(e, ast.IfExp):
             a, b = self.tuple_parts(e.body), self.tuple_parts(e.orelse)
             if isinstance(a, list) and isinstance(b, list) and len(a) == len(b):
@@ -496,6 +504,9 @@ class Kinds:
                     return {"obj:" + f.id}
                 return set(UNKNOWN)
             if isinstance(f, ast.Attribute):
+                k = self._method_result(e, "kinds")
+                if k is not None:
+                    return set(k)
                 base = self.of(f.value)
                 if f.attr in STR_METHODS and (base == {"str"} or (isinstance(f.value, ast.Constant) and isinstance(f.value.value, str))):
                     return {"str"}
@@ -505,6 +516,26 @@ class Kinds:
                     return {"str"}
             return set(UNKNOWN)
         return set(UNKNOWN)
+
+    def _method_result(self, call, what):
+        """Result of `self.m(..)` / `cls.m(..)` (inside a method of the owner class) or `Class.m(..)`: decided by the module's
+        method table (ModuleKinds.method_call); None when the receiver is anything else or the method is not understood."""
+        f = call.func
+        if self.method_call is None or not isinstance(f.value, ast.Name) or self.rebound(f.value.id):
+            return None
+        r = f.value.id
+        if self.self_name and r == self.self_name and self.owner:
+            recv = "self"
+        elif self.cls_name and r == self.cls_name and self.owner:
+            recv = "cls"
+        elif r not in self.env and r not in self.locals:
+            recv = "class:" + r
+        else:
+            return None
+        try:
+            return self.method_call(self.owner, recv, f.attr, call, self, what)
+        except RecursionError:
+            return None
 
     def truth(self, test):
         """True / False when the test is decided by a call-site literal of a parameter that is never re-bound, else None."""
@@ -581,8 +612,9 @@ class ModuleKinds:
         self._busy = set()
         self._memo = {}
 
-    def _callee(self, name, call, caller=None):
-        """(function node, {parameter: literal}, {parameter: (kinds, element kinds)}) or None when the call shape is not understood."""
+    def _callee(self, name, call, caller=None, skip=0):
+        """(function node, {parameter: literal}, {parameter: (kinds, element kinds)}) or None when the call shape is not understood.
+        skip: leading positional parameters bound by the receiver (self / cls), not by the call."""
         fn = self.m.functions.get(name)
         if fn is None or not isinstance(fn, (ast.FunctionDef,)):
             return None
@@ -590,6 +622,9 @@ class ModuleKinds:
             return None
         a = fn.args
         pos = [p.arg for p in a.posonlyargs + a.args]
+        if len(pos) < skip:
+            return None
+        pos = pos[skip:]
         names = set(pos) | {p.arg for p in a.kwonlyargs}
         consts, pk = {}, {}
         if call is not None:
@@ -609,19 +644,21 @@ class ModuleKinds:
                     consts[p] = d
         return fn, consts, pk
 
-    def _run(self, name, call, what, caller=None):
-        got = self._callee(name, call, caller)
+    def _run(self, name, call, what, caller=None, skip=0, kinds_kw=None):
+        got = self._callee(name, call, caller, skip)
         if got is None:
             return None
         fn, consts, pk = got
-        key = (what, name, tuple(sorted((k, repr(v.value)) for k, v in consts.items())), tuple(sorted((k, tuple(sorted(v[0])), tuple(sorted(v[1]))) for k, v in pk.items())))
+        key = (what, name, skip, tuple(sorted((k, repr(v.value)) for k, v in consts.items())), tuple(sorted((k, tuple(sorted(v[0])), tuple(sorted(v[1]))) for k, v in pk.items())))
         if key in self._memo:
             return self._memo[key]
         if key in self._busy:
             return set() if what == "kinds" else BOT
         self._busy.add(key)
         try:
-            kk = Kinds(fn, None, self.call_kinds, consts, self_name="", call_parts=self.call_parts, param_kinds=pk)
+            kw = dict(kinds_kw) if kinds_kw else dict(self_fields=None, self_name="")
+            kk = Kinds(fn, kw.pop("self_fields"), self.call_kinds, consts, call_parts=self.call_parts, param_kinds=pk,
+                       method_call=self.method_call, **kw)
             if what == "kinds":
                 out = set()
                 for r in kk.returns():
@@ -642,3 +679,121 @@ class ModuleKinds:
 
     def call_parts(self, name, call, caller=None):
         return self._run(name, call, "parts", caller)
+
+    # -- methods of the module's classes -------------------------------------------------------------------------------------
+    def _classes(self):
+        if not hasattr(self, "_top"):
+            self._top = {n.name: n for n in self.m.tree.body if isinstance(n, ast.ClassDef)}
+        return self._top
+
+    def _bases(self, cname):
+        return [getattr(b, "id", None) or getattr(b, "attr", None) for b in self._classes()[cname].bases]
+
+    def _defines(self, cname, meth):
+        """The statement(s) binding `meth` in the body of class cname (any statement kind)."""
+        out = []
+        for b in self._classes()[cname].body:
+            if isinstance(b, (ast.FunctionDef, ast.AsyncFunctionDef, ast.ClassDef)) and b.name == meth:
+                out.append(b)
+            elif isinstance(b, (ast.Assign, ast.AnnAssign, ast.AugAssign)):
+                tg = b.targets if isinstance(b, ast.Assign) else [b.target]
+                if any(isinstance(t, ast.Name) and t.id == meth for t in tg):
+                    out.append(b)
+            elif not isinstance(b, (ast.Expr, ast.Pass)) and any(isinstance(x, ast.Name) and x.id == meth and isinstance(x.ctx, ast.Store) for x in ast.walk(b)):
+                out.append(b)
+        return out
+
+    def _resolve(self, cname, meth, seen=()):
+        """-> (defining class, node) of the first definition along the bases (depth first, left to right), "?" when a base is
+        not a class of this module (it may define the method), None when no class defines it."""
+        top = self._classes()
+        if cname not in top or cname in seen:
+            return "?"
+        d = self._defines(cname, meth)
+        if d:
+            return (cname, d[-1]) if len(d) == 1 else "?"
+        unknown_base = False
+        for b in self._bases(cname):
+            if b in ("object", "dict", "list", "Protocol", "Generic", "ABC"):
+                continue                                 # define none of the module's own method names that are looked up here
+            r = self._resolve(b, meth, seen + (cname,)) if b in top else "?"
+            if r == "?":
+                unknown_base = True
+            elif r is not None:
+                return "?" if unknown_base else r
+        return "?" if unknown_base else None
+
+    def _descendants(self, cname):
+        top, out, grew = self._classes(), set(), True
+        while grew:
+            grew = False
+            for n in top:
+                if n not in out and n != cname and any(b == cname or b in out for b in self._bases(n)):
+                    out.add(n)
+                    grew = True
+        return out
+
+    def _field_anns(self, cname, seen=()):
+        top, out = self._classes(), {}
+        for b in self._bases(cname):
+            if b in top and b not in seen:
+                out.update(self._field_anns(b, seen + (cname,)))
+        for b in top[cname].body:
+            if isinstance(b, ast.AnnAssign) and isinstance(b.target, ast.Name):
+                out[b.target.id] = b.annotation
+        return out
+
+    def method_call(self, owner, recv, meth, call, caller=None, what="kinds"):
+        """Result kinds (what="kinds") / tuple parts of `self.meth(..)`, `cls.meth(..)` inside a method of class `owner`, or of
+        `Class.meth(..)`.  A call through self / cls dispatches on the run-time class: the answer joins the definition the owner
+        inherits with every override in the module's subclasses of the owner.  Plain functions (instance methods), staticmethods and
+        classmethods are understood; any other decorator, a non-function binding, a base class outside the module, or a call shape
+        `_callee` does not understand give None (unknown)."""
+        top = self._classes()
+        if recv.startswith("class:"):
+            start, dynamic = recv[6:], False
+        else:
+            start, dynamic = owner, True
+        if start not in top:
+            return None
+        cands = []
+        r = self._resolve(start, meth)
+        if r == "?" or r is None:
+            return None
+        cands.append(r)
+        if dynamic:
+            for sub in sorted(self._descendants(start)):
+                d = self._defines(sub, meth)
+                if len(d) > 1:
+                    return None
+                if d:
+                    cands.append((sub, d[0]))
+        out = None
+        for cname, node in cands:
+            if not isinstance(node, ast.FunctionDef):
+                return None
+            decs = [getattr(dec, "id", None) for dec in node.decorator_list]
+            if decs == ["staticmethod"]:
+                skip, kw = 0, dict(self_fields=None, self_name="", owner=cname)
+            elif decs == ["classmethod"]:
+                a = node.args.posonlyargs + node.args.args
+                if not a:
+                    return None
+                skip, kw = 1, dict(self_fields=None, self_name="", owner=cname, cls_name=a[0].arg)
+            elif not decs:
+                if recv.startswith("class:"):
+                    return None                          # Class.m(obj, ..): explicit receiver, not followed
+                skip, kw = 1, dict(self_fields=self._field_anns(cname), self_name=None, owner=cname)
+            else:
+                return None
+            got = self._run(f"{cname}.{meth}", call, what, caller, skip=skip, kinds_kw=kw)
+            if got is None:
+                return None
+            if what == "kinds":
+                out = set(got) if out is None else out | set(got)
+            else:
+                if out is None:
+                    out = got
+                elif out != got:
+                    return None
+        return out
